@@ -51,11 +51,6 @@ add("KF-slogdet-complex-sign", ["C09"],
     {"prim": "slogdet", "args": {"0": {"__re__": "c.*"}}, "tags": {"__has__": "both_outputs"}, "symptom": ["wrong_value", "not_adjoint"]},
     case("slogdet", [W(2, True)], ns="linalg", tags=["both_outputs"]))
 
-add("KF-solve-broadcast-a", ["C01", "C05", "C09"],
-    "np.linalg.solve(a, b) with a single matrix a broadcast against a batch of right-hand sides: the 'is b a vector' heuristic of grad_solve misfires and the cotangent for a has the wrong shape",
-    {"prim": "solve", "tags": {"__has__": "bcast_a"}, "symptom": ["wrong_shape", "wrong_value", "not_adjoint"]},
-    case("solve", [W(2), A(3, 2, 3)], ns="linalg", argnum=0, tags=["bcast_a"]))
-
 add("KF-order-A-fortran-layout", ["C01", "C02", "C09"],
     "np.reshape / np.ravel / ndarray.flatten with order='A' on an argument that is Fortran-contiguous (not C-contiguous): NumPy reads the argument in Fortran order, but the VJP reshapes the (C-ordered) cotangent back with order='A' (= C order) and the JVP applies order='A' to the tangent's own layout; the derivative entries land at permuted positions. A repair needs the argument's layout inside both rules (custom JVP instead of 'same')",
     {"prim": ["reshape", "ravel", "flatten"], "layout": "F", "kw": {"order": {"__re__": "str:[Aa]"}}, "symptom": ["wrong_value", "not_adjoint", "modes_disagree"]},
@@ -108,6 +103,8 @@ fixed("FX-array-ndmin", ["C01", "C02", "C05"], "0fd5721", "np.array(list_of_arra
 fixed("FX-linspace-array-endpoints", ["C01", "C02", "C05", "C15"], "feeb86a", "np.linspace with an array endpoint and a scalar endpoint: the scalar endpoint received a vector gradient / wrongly shaped tangent", case("linspace", [A(2), 0.7, 4], argnum=1, tags=["array_endpoints"]))
 fixed("FX-pad-jvp-modes", ["C02", "C15"], "8d5fb8b", "forward-mode np.pad padded the tangent for the non-linear statistics modes (silently wrong) and ignored stat_length / reflect_type", case("pad", [A(5), 1, "maximum"], tags=["unsupported_mode"]), witness_mode="fwd")
 fixed("FX-make-diagonal-dtype", ["C05", "C09"], "b957bf9", "make_diagonal allocated float64: complex input lost its imaginary part; diagonal()/make_diagonal() returned real gradients for complex arguments", case("diagonal", [C(3, 3)], {"axis1": -1, "axis2": -2}))
+fixed("FX-solve-broadcast-a", ["C01", "C05", "C09"], "efdfd7a", "np.linalg.solve(a, b) with a single matrix a broadcast against a batch of right-hand sides: the vector/matrix heuristic of grad_solve misfired and the cotangent for a had the wrong shape", case("solve", [W(2), A(3, 2, 3)], ns="linalg", argnum=0, tags=["bcast_a"]))
+fixed("FX-solve-vec-b-batched-a", ["C01", "C09"], "d6c80b9", "np.linalg.solve(a, b) with a stack of matrices a and one vector b: the adjoint solve read the (batch, M) cotangent as a single matrix (silently wrong when batch == M, an exception otherwise)", case("solve", [onp.stack([W(2), W(2).T + 0.3]), A(2)], ns="linalg", argnum=1, tags=["vec_b_batched_a"]))
 fixed("FX-where-jvp-broadcast", ["C05", "C02"], "423a953", "forward-mode np.where returned a tangent with the branch's shape/kind instead of the output's", case("where", [cc, A(3), A(2, 2, 3)], argnum=1), witness_mode="fwd")
 
 out = {"_comment": "Known findings: genuine defects of HIPS/autograd that are recorded rather than repaired (status open) and defects repaired by a 'fix:' commit (status fixed; fixed entries suppress nothing - their witnesses are re-run on every check and a failing one is an ordinary VIOLATION). `match` is a conjunction over fields of the case signature (lists = any of; {__re__}: regex; {__has__}: list membership); never a seed, hash or random value. Read-only at run time.", "findings": F}
